@@ -77,6 +77,12 @@ class SInt:
         raise Unsupported("symbolic int used as native index")
 
 
+class STime(SInt):
+    """a point in time / duration in microseconds (time.time(), time.monotonic()); adding a number of seconds
+    scales it, so deadlines can be compared.  Real-time behaviour itself is not decided."""
+    __slots__ = ()
+
+
 class SBool:
     __slots__ = ("t",)
 
